@@ -7,6 +7,7 @@ the property's quick check (must print VIOLATION), undo.  Results are written to
 Never leaves /repo modified.
 """
 import json
+import os
 import re
 import subprocess
 import sys
@@ -18,6 +19,15 @@ PY = "/venv/bin/python"
 
 def sh(cmd, **kw):
     return subprocess.run(cmd, shell=isinstance(cmd, str), capture_output=True, text=True, **kw)
+
+
+def record_check(res: dict, c) -> None:
+    out = c.stdout
+    res["check_exit"] = c.returncode
+    vio = [l for l in out.splitlines() if l.startswith("VIOLATION")]
+    res["check_violation"] = bool(vio) and c.returncode == 1
+    idx = out.find("VIOLATION")
+    res["check_says"] = out[max(0, idx - 500):idx + 120].strip()[-600:] if vio else out.strip()[-300:]
 
 
 def evaluate(d: Path) -> dict:
@@ -49,6 +59,17 @@ def evaluate(d: Path) -> dict:
         res["demo_with_change"] = sh(f"{PY} {d / 'demo.py'} {wt}", timeout=600).returncode
         sh(f"git -C {wt} checkout -- . && git -C {wt} clean -fdq")
         res["demo_without_change"] = sh(f"{PY} {d / 'demo.py'} {wt}", timeout=600).returncode
+        if os.environ.get("SEEDED_SCRATCH"):
+            # /repo is in use (e.g. a sweep is reading it): run the check against the scratch worktree through VERIF_REPO instead
+            assert sh(f"git -C {wt} apply {patch}").returncode == 0
+            res["check_against"] = "scratch worktree via VERIF_REPO"
+            try:
+                c = sh(f"cd {ROOT} && VERIF_REPO={wt} {PY} harness/check.py {pid} quick", timeout=600)
+                record_check(res, c)
+            except subprocess.TimeoutExpired:
+                res.update(check_exit="timeout", check_violation=False, check_says="the quick check did not finish within 600 s with this change applied")
+            res["kept"] = bool(res.get("tests_pass") and res.get("demo_with_change") == 1 and res.get("demo_without_change") == 0)
+            return res
     finally:
         sh(f"git -C /repo worktree remove --force {wt}")
     # the registered check against /repo with the change applied
@@ -61,12 +82,7 @@ def evaluate(d: Path) -> dict:
             res.update(check_exit="timeout", check_violation=False, check_says="the quick check did not finish within 600 s with this change applied")
             res["kept"] = bool(res.get("tests_pass") and res.get("demo_with_change") == 1 and res.get("demo_without_change") == 0)
             return res
-        out = c.stdout
-        res["check_exit"] = c.returncode
-        vio = [l for l in out.splitlines() if l.startswith("VIOLATION")]
-        res["check_violation"] = bool(vio) and c.returncode == 1
-        idx = out.find("VIOLATION")
-        res["check_says"] = out[max(0, idx - 500):idx + 120].strip()[-600:] if vio else out.strip()[-300:]
+        record_check(res, c)
     finally:
         sh("git -C /repo checkout -- . && git -C /repo clean -fdq fakesnow")
     res["kept"] = bool(res.get("tests_pass") and res.get("demo_with_change") == 1 and res.get("demo_without_change") == 0)
